@@ -13,8 +13,8 @@ from .trace import normalise
 
 # property id -> observer tag prefixes that decide it
 TAGS = {
-    "C04": ("C04_", "C07_NilNotInstalled", "C07_ErrMismatch"),
-    "C05": ("C05_",),
+    "C04": ("C04_", "C07_NilNotInstalled", "C07_ErrMismatch", "C02_"),
+    "C05": ("C05_", "C02_"),
     "C06": ("C06_",),
     "C07": ("C07_", "C08_Hang"),
     "C08": ("C08_",),
@@ -376,6 +376,10 @@ def run_check(pid, tier, replay=None):
         if pid == "C05":
             free += [stress_scenario(rng, i) for i in range(6 if quick else 60)]
         scenarios += free
+        # half of the scenarios keep leaf y behind a user-declared pointer to a struct that sources hand over with its own type
+        # (the overlay then assigns / merges pointers instead of scalars: aliasing between stored values and published configs)
+        for i, s in enumerate(scenarios):
+            s["ptry"] = (i + seed) % 2 == 1
         events, crashes = run_scenarios(vh, scratch, scenarios, workers=12)
         violations = []
         for sc, stderr in crashes:
